@@ -3,6 +3,9 @@ CONSTANTS
   Workers = {"w1", "w2"}
   Cap = 1
   ResultKinds = {"ok", "err"}
+  OutOf <- OutSingle
+  SingleFile = TRUE
+  GenKinds = {"ok"}
   Items <- ItemsDistinct
 SPECIFICATION Spec
 INVARIANTS TypeOk NoLateSend
